@@ -254,7 +254,7 @@ def main():
                 mutants.append({"kind": kind, "label": label, "text": t, "generated_valid": vg[kind].is_valid(d), "gallina": gjson(d)})
         p = subprocess.run([a.parse_bin, "parse"], input="".join(json.dumps({"kind": m["kind"], "text": m["text"]}) + "\n" for m in mutants),
                            capture_output=True, text=True)
-        outs = [json.loads(l) for l in p.stdout.splitlines() if l.strip().startswith("{")]
+        outs = [json.loads(l) for l in p.stdout.split("\n") if l.strip().startswith("{")]
         if len(outs) != len(mutants):
             print("parse mode returned %d answers for %d requests: %s" % (len(outs), len(mutants), p.stderr[-500:]))
             return 2
